@@ -246,6 +246,11 @@ def _set_sigmas(ch, P, parset, progset, mode):
                     ts.sigma = None
                     continue
                 vals = [abs(v) for v in ts.vals] + ([abs(ts.assumption)] if ts.assumption is not None else [])
+                if par.name not in P.framework.pars.index and not (vals and max(vals) > 0):
+                    # an initial compartment size / characteristic of exactly zero: every second draw would be negative
+                    # and rejected (per population), which exhausts the library's attempts - not an input worth posing
+                    ts.sigma = None
+                    continue
                 scale = max(vals) if vals and max(vals) > 0 else 1.0
                 ts.sigma = 0.01 * scale
                 npos += 1
@@ -377,6 +382,15 @@ def run(ch, idx, tier):
     mode = ch.pick("sigma_mode", ["positive", "asis", "mixed", "zero", "none"])
     if mode == "asis" and name not in ("uncertainty", "uncertainty_low"):
         mode = "positive"
+    if ch.flip("saved_initialization", 0.2) and not entry.meta["timed"]:  # (a saved state fixes the rows of timed compartments, so it cannot be combined with sampled durations)
+        # the source parameter set carries a saved initial state (taken from a later year of a plain run): every
+        # sampled copy starts from it, as the source does
+        try:
+            r_init = P.run_sim(parset, store_results=False)
+            parset.set_initialization(r_init, float(r_init.t[len(r_init.t) // 2]))
+            bump("probe:source_carries_saved_initialization")
+        except Exception:
+            parset.initialization = None
     if ch.flip("zero_valued_constant", 0.3):
         # a quantity entered as a constant of exactly 0 (no year-specific values) is as uncertain as any other
         fw = P.framework
